@@ -84,6 +84,19 @@ def real_function(qual):
     raise ImportError(qual)
 
 
+def snapshot(v):
+    """copy containers, keep other objects by reference (old(x) must preserve object identity)"""
+    if isinstance(v, list):
+        return [snapshot(x) for x in v]
+    if isinstance(v, tuple):
+        return tuple(snapshot(x) for x in v)
+    if isinstance(v, dict):
+        return {k: snapshot(x) for k, x in v.items()}
+    if isinstance(v, set):
+        return set(v)
+    return v
+
+
 class Outcome(object):
     def __init__(self, status, detail=None, args=None):
         self.status = status  # pre-false | ok | post-fail | raised | spec-error
@@ -106,13 +119,13 @@ def check_call(qual, contract, args, vocab=None):
     except Exception as e:
         return Outcome("pre-false", "requires raised %r" % (e,))
     ens = [compile_spec(e) for e in contract.get("ensures", [])]
-    frame_old = copy.deepcopy(args)
+    frame_old = snapshot(args)
     oldvals = []
     for code, olds in ens:
         ov = {}
         for i, oc in enumerate(olds):
             try:
-                ov["__old_%d" % i] = copy.deepcopy(eval(oc, dict(env, **args)))
+                ov["__old_%d" % i] = snapshot(eval(oc, dict(env, **args)))
             except Exception as e:
                 return Outcome("spec-error", "old() raised %r" % (e,))
         oldvals.append(ov)
@@ -201,3 +214,32 @@ def enumerate_strings(alphabet, maxlen):
     for n in range(maxlen + 1):
         for tup in itertools.product(alphabet, repeat=n):
             yield "".join(tup)
+
+
+# ------------------------------------------------------------- concrete spec functions
+def hom_vocab(homs, extra=None):
+    """python implementations of the homomorphic spec functions: fold of the unit expression"""
+    env = dict(VOCAB)
+    env["irange"] = lambda a, b: list(range(a, b))
+    if extra:
+        env.update(extra)
+
+    def make(name, d):
+        code = compile(ast.parse(d["unit"].strip(), mode="eval"), "<hom %s>" % name, "eval")
+        ctxn = [c for c, t in d.get("ctx", [])]
+        kind = d["result"]
+
+        def f(xs, *ctx):
+            out = "" if kind == "str" else 0 if kind == "int" else []
+            for x in xs:
+                loc = dict(env)
+                loc["x"] = x
+                loc.update(zip(ctxn, ctx))
+                out = out + eval(code, loc)
+            return out
+
+        return f
+
+    for n, d in homs.items():
+        env[n] = make(n, d)
+    return env
